@@ -79,6 +79,7 @@ const FORMATS: &[&str] = &[
     "general", "0", "0.00", "#,##0", "#,##0.00", "0%", "0.00%", "0.00E+00", "# ?/?", "# ??/??", "mm-dd-yy", "d-mmm-yy", "d-mmm", "mmm-yy",
     "h:mm AM/PM", "h:mm:ss AM/PM", "h:mm", "h:mm:ss", "m/d/yy h:mm", "#,##0 ;(#,##0)", "#,##0 ;[Red](#,##0)", "#,##0.00;(#,##0.00)",
     "#,##0.00;[Red](#,##0.00)", "mm:ss", "[h]:mm:ss", "mmss.0", "##0.0E+0", "@", "[$-409]d-mmm-yyyy", "_-* #,##0.00_-;\\-* #,##0.00_-;_-* \"-\"??_-;_-@_-",
+    "[>1e3]0", "[<=2.5E+2]0.0;[=0]\"z\";0", "[>=100][Red]0;[<-1.5e-2]0.00", "[$\u{20ac}-407] #,##0.00", "0.0E-0", "0.00;[=-3e5]0", "[<>0]0.0e+0",
     "\"x\"0", "0;;;", "[>100]0;[<0]-0;0", "yyyy-mm-dd", "dddd, mmmm dd, yyyy", "[Blue]0", "0,", "0,,", "?/?", "0.0#####",
 ];
 
@@ -140,6 +141,26 @@ pub fn exercise(c: &Case) -> Result<(), (String, String)> {
         run("format_number", &mut || {
             let _ = ironcalc_base::number_format::format_number(c.number, &c.text, c.locale);
         })?;
+        // every prefix of the code: a format string cut off at any point must not crash either
+        let chars: Vec<char> = c.text.chars().collect();
+        if chars.len() <= 48 {
+            for k in 0..chars.len() {
+                let prefix: String = chars[..k].iter().collect();
+                run("format_number(prefix)", &mut || {
+                    let _ = ironcalc_base::number_format::format_number(c.number, &prefix, c.locale);
+                    let _ = ironcalc_base::number_format::format_number(1234.5, &prefix, c.locale);
+                })?;
+            }
+        }
+        // the same code through the TEXT function
+        if let Ok(mut model) = Model::new_empty("c", c.locale, "UTC", "en") {
+            let quoted = c.text.replace('"', "\"\"");
+            let sep = if matches!(c.locale, "en" | "en-GB") { ',' } else { ';' };
+            run("TEXT(value, code)", &mut || {
+                let _ = model.set_user_input(0, 1, 1, format!("=TEXT(1234.5{sep}\"{quoted}\")"));
+                model.evaluate();
+            })?;
+        }
         return Ok(());
     }
     let body = c.text.strip_prefix('=').unwrap_or(&c.text).to_string();
